@@ -5,7 +5,7 @@ from . import inputs, hist, synth
 PROP = 'C14'
 LEVEL = 'exploration'
 WALL_CAP = {'quick': 300, 'thorough': 3000}
-RUNS = {'quick': 3500, 'thorough': 50000}
+RUNS = {'quick': 2500, 'thorough': 50000}
 RULE = ('one run = source model S (sample or API-built, every geometry kind, skinned or not, model-space shaders) and destination D in {S itself, fresh Create(version), '
         'another loaded/built model of the same version}; steps: CloneShape (repeated), restart of D (raw/default save, forget, load), destruction of S followed by use of D, '
         'query battery on D. Oracle per clone: geometry, weights, bone list and texture paths equal the source\'s (normals/tangents exempt for model-space shaders in SK/SSE); '
@@ -38,7 +38,12 @@ def gen_plan(seed, i, tier):
                 s['msn'] = True
             if s['nv'] > 2000:
                 s['nv'], s['nt'] = 30, 40
-        return {'settle': True, 'builder': {'version': ver, 'salt': rng.below(1 << 30), 'nodes': rng.below(4), 'shapes': shapes}}
+        b = {'version': ver, 'salt': rng.below(1 << 30), 'nodes': rng.below(4), 'shapes': shapes}
+        if rng.chance(0.15):
+            b.update({'nodes': rng.range(3, 7), 'dup_nodes': True})   # several nodes share a name
+            for s in shapes:
+                s['under_node'] = rng.below(6)
+        return {'settle': True, 'builder': b}
 
     init = some_init()
     dest = rng.weighted([('same', 3), ('fresh', 4), ('other', 3)])
